@@ -687,8 +687,14 @@ pub fn isolation(out: &mut Out, seed: u64, histories: usize, len: usize, pair: O
     for h in 0..histories {
         let timeout = [0u64, 3, 1000][h % 3];
         out.req(&format!("pp settime {}", rng.below(1000)));
-        out.req(&format!("pp new 1 {}", timeout));
-        for c in 0..16 { out.req(&format!("pp new {} {}", 10 + c, timeout)); }
+        if timeout == 0 && h % 2 == 1 {
+            // zero timeout: also through `default()`, for the shared scanner only / for all of them
+            out.req("pp default 1");
+            for c in 0..16 { if h % 4 == 1 { out.req(&format!("pp new {} 0", 10 + c)); } else { out.req(&format!("pp default {}", 10 + c)); } }
+        } else {
+            out.req(&format!("pp new 1 {}", timeout));
+            for c in 0..16 { out.req(&format!("pp new {} {}", 10 + c, timeout)); }
+        }
         let mut ok = true;
         let mut hist = String::new();
         for _ in 0..len {
